@@ -4,7 +4,8 @@ C14 — the hand-transcribed function bodies are the ones in /repo now.
 `Gen.SurfaceFacts.*Body` are the statement skeletons `extract/cmd/C14` prints from the current
 source on every run; `Model.SurfaceSource.*` are the skeletons the model was transcribed from.
 Each theorem fails to compile when its function changed in any way other than the names of
-variables (then the transcription in Model/Surface.lean or Model/Layout.lean has to be compared
+variables and the rewrites the printer normalises (`a < b` / `b > a`, `x++` / `x += 1` / `x = x + 1`, the
+order of the operands of `==` and of `&&` / `||` between operands that can neither panic nor have an effect) (then the transcription in Model/Surface.lean or Model/Layout.lean has to be compared
 with the new body, and the correspondence run looks for a concrete difference meanwhile).
 -/
 import VaxisModel.Gen.SurfaceFacts
@@ -34,5 +35,7 @@ theorem facts_textDrawSoftwrapBody : Gen.SurfaceFacts.textDrawSoftwrapBody = Mod
 theorem facts_textFindContainerSizeBody : Gen.SurfaceFacts.textFindContainerSizeBody = Model.SurfaceSource.textFindContainerSizeBody := by decide +kernel
 
 theorem facts_textfieldDrawBody : Gen.SurfaceFacts.textfieldDrawBody = Model.SurfaceSource.textfieldDrawBody := by decide +kernel
+
+theorem facts_textHardLinesBody : Gen.SurfaceFacts.textHardLinesBody = Model.SurfaceSource.textHardLinesBody := by decide +kernel
 
 end VaxisModel.Props.C14Facts
